@@ -511,7 +511,11 @@ func main() {
 	f := gallina.ParseFlags()
 	meta := gallina.NewMeta("C54", f.Seed, f.Tier)
 	meta.Rule = "corpus (late-iteration failures at Next #2/#3, creation failure, all-or-nothing across two Selects, commit ordering) + seeded random fanouts: 0-4 secondaries (incl. noop queriers), 0-3 Selects drained in a random order, Querier and ChunkQuerier paths, one optional fault per storage at creation / Select / first Next / later Next / unreachable position, label-query faults, warnings; append histories of 1-3 sessions (Appender and AppenderV2) with Append / Commit / Rollback faults per appender; non-trivial = a query case with >= 1 live secondary and >= 1 injected fault anywhere, or an append case with >= 1 secondary and >= 1 fault; distinct by full case description"
-	cf := &gallina.CaseFile{Dir: f.Out, Type: "case", PerShard: 100,
+	perShard := 100
+	if f.Tier == "thorough" {
+		perShard = 300
+	}
+	cf := &gallina.CaseFile{Dir: f.Out, Type: "case", PerShard: perShard,
 		Preamble: "From Coq Require Import List ZArith.\nFrom Verif Require Import model.Fanout corr.CorrC54.\nImport ListNotations.\nOpen Scope Z_scope.\n",
 		Footer:   gallina.StdFooter}
 	id := 0
@@ -651,8 +655,8 @@ func main() {
 		emitA(c)
 	}
 
-	nq := f.Count(300, 20000)
-	na := f.Count(120, 6000)
+	nq := f.Count(300, 8000)
+	na := f.Count(120, 2500)
 	for i := 0; i < nq; i++ {
 		r := gen.Fork(f.Seed, i)
 		// 1 in 12 generated cases may contain the two known-finding fault positions
